@@ -8,8 +8,8 @@
    Completeness of array programs (honest witness satisfies) is the C01 theorem; "identical constraints for every index
    value" is the C06 theorem.  LINKED to the model (Proofs/ArrayModel.v, theorems C15_model_read_is_exact etc.): the constraints that the model's secret-index
    read and write of a 1-D array of secret integers / plain ints really emit -- through the Python operator dispatch -- force exactly
-   that, for any assignment (no guard active or a guard whose wire is 1; LinComb.ONE = 1).  NOT proved in Coq: multi-dimensional
-   index tuples (arr_get/arr_set recursion), arrays of other element kinds, writes of a value that is itself (the same Python object
+   that, for any assignment (no guard active or a guard whose wire is 1; LinComb.ONE = 1).  Public indexes are Python list indexing (theorems C15_public_read etc.); 2-D tuples with a public row and a secret
+   column reduce to the 1-D theorems (theorems C15_row_read_is_exact etc.).  NOT proved in Coq: index tuples whose FIRST index is secret (sums of whole rows), arrays of other element kinds, writes of a value that is itself (the same Python object
    as) an element.  The Array model is compared trace-for-trace with the real code, every
    generated sequence of reads and writes (1-D, 2-D, constants and secrets) is compared with plain Python lists, and
    out-of-bounds indices must raise / leave the constraint system unsatisfied. *)
@@ -57,7 +57,37 @@ Theorem C15_model_write_is_exact : forall (l : list (Sym.slc p + Z)) x v r s' cs
   exists j ts, r = map PLC ts /\ length ts = length l /\ (j < length l)%nat /\ ew x == Z.of_nat j /\ nth j (map ew ts) 0 == ew v /\
                forall i, (i < length l)%nat -> i <> j -> nth i (map ew ts) 0 == nth i (map elw l) 0.
 Proof. exact (arr_set1_forced Hp w W0 c s G O). Qed.
+(* public indexes: Python list indexing (negative indexes count from the end), nothing emitted, the state unchanged *)
+Theorem C15_public_index_is_list_indexing : forall (l : list (Api.pyval p)) k j,
+  py_index (Z.of_nat (length l)) k = Some j <-> ((0 <= k < Z.of_nat (length l) /\ j = Z.to_nat k) \/ (- Z.of_nat (length l) <= k < 0 /\ j = Z.to_nat (Z.of_nat (length l) + k))).
+Proof. intros l k j. exact (py_index_spec (Z.of_nat (length l)) k j). Qed.
+Theorem C15_public_read : forall (l : list (Api.pyval p)) k j, py_index (Z.of_nat (length l)) k = Some j ->
+  run (arr_get1 c l (PInt k)) s = (inl (nth j l PNone), s, []).
+Proof. exact (arr_get1_public c s). Qed.
+Theorem C15_public_write : forall (l : list (Api.pyval p)) k j v, py_index (Z.of_nat (length l)) k = Some j ->
+  run (arr_set1 c l (PInt k) v) s = (inl (upd_nth l j v), s, []).
+Proof. exact (arr_set1_public c s). Qed.
+Theorem C15_public_index_out_of_range_raises : forall (l : list (Api.pyval p)) k, py_index (Z.of_nat (length l)) k = None ->
+  exists s' cs, run (arr_get1 c l (PInt k)) s = (inr IndexError, s', cs).
+Proof. exact (arr_get1_public_out_of_range c s). Qed.
+(* 2-D: A[k, x] and A[k, x] = v with a public row k and a secret column x *)
+Theorem C15_row_read_is_exact : forall (rows : list (Api.pyval p)) k j b (row : list (Sym.slc p + Z)) x r s' cs,
+  py_index (Z.of_nat (length rows)) k = Some j -> nth j rows PNone = PArr b (map inj row) -> row <> [] -> Z.of_nat (length row) <= p ->
+  run (arr_get c rows [PInt k; PLC x]) s = (inl r, s', cs) -> sat cs ->
+  exists i t, (i < length row)%nat /\ r = PLC t /\ ew x == Z.of_nat i /\ ew t == nth i (map elw row) 0.
+Proof. exact (arr_get_row_forced Hp w W0 c s G O). Qed.
+Theorem C15_row_write_is_exact : forall (rows : list (Api.pyval p)) k j b (row : list (Sym.slc p + Z)) x v r s' cs,
+  py_index (Z.of_nat (length rows)) k = Some j -> nth j rows PNone = PArr b (map inj row) -> row <> [] -> Z.of_nat (length row) <= p ->
+  Forall (fun old => same_val (PLC v) (inj old) = false) row ->
+  run (arr_set c rows [PInt k; PLC x] (PLC v)) s = (inl r, s', cs) -> sat cs ->
+  exists i ts, r = upd_nth rows j (PArr false (map PLC ts)) /\ length ts = length row /\ (i < length row)%nat /\ ew x == Z.of_nat i /\
+               nth i (map ew ts) 0 == ew v /\ forall i', (i' < length row)%nat -> i' <> i -> nth i' (map ew ts) 0 == nth i' (map elw row) 0.
+Proof. exact (arr_set_row_forced Hp w W0 c s G O). Qed.
 End C15_model.
+Print Assumptions C15_public_read.
+Print Assumptions C15_public_write.
+Print Assumptions C15_row_read_is_exact.
+Print Assumptions C15_row_write_is_exact.
 Print Assumptions C15_model_read_is_exact.
 Print Assumptions C15_model_out_of_bounds_unprovable.
 Print Assumptions C15_model_write_is_exact.
